@@ -33,26 +33,45 @@ package fdo
 
 //@ func fdo.TO2Server.ownerKey
 //@   params s ctx keyType keyEncoding rsaBits
+//@   local err = Phi#2 | extract1:call:protocol.NewPublicKey#1 | extract1:call:protocol.NewPublicKey#2 | extract1:call:protocol.NewPublicKey#3 | extract2:call:fdo.OwnerKeyPersistentState.OwnerKey#1
 //@   props C10(sweep)
 //@   sweep bounds,panic,make,nilmem,div
 
 //@ func fdo.TO2Server.ownerServiceInfo
 //@   params s ctx msg
+//@   local complete = extract2:call:fdo.TO2SessionState.Devmod#1
+//@   local deviceInfo = addr:Alloc#1
+//@   local err = call:cbor.Decoder.Decode#1 | call:fdo.TO2SessionState.SetDevmod#1 | call:fdo.TO2SessionState.SetDevmod#2 | call:io.Closer.Close#1 | call:serviceinfo.ChunkWriter.Close#1 | call:serviceinfo.ChunkWriter.WriteChunk#1 | call:serviceinfo.ModulePersister.PersistModule#1 | call:serviceinfo.OwnerModule.HandleInfo#1 | extract1:call:fdo.TO2SessionState.GUID#1 | extract1:call:fdo.VoucherPersistentState.Voucher#1 | extract1:call:io.Copy#1 | extract2:call:serviceinfo.ModuleStateMachine.Module#1 | extract3:call:fdo.TO2SessionState.Devmod#1
+//@   local messageBody = extract1:call:serviceinfo.UnchunkReader.NextServiceInfo#1
+//@   local messageName = extract1:call:strings.Cut#1
+//@   local module = MakeInterface#2 | Phi#3 | extract1:call:serviceinfo.ModuleStateMachine.Module#1
+//@   local moduleName = Phi#2 | extract0:call:serviceinfo.ModuleStateMachine.Module#1 | extract0:call:strings.Cut#1
 //@   props C10(sweep)
 //@   sweep bounds,panic,make,nilmem,div
 
 //@ func fdo.TO2Server.ownerServiceInfoReady
 //@   params s ctx msg
+//@   local deviceReady = addr:Alloc#1
 //@   props C10(sweep)
 //@   sweep bounds,panic,make,nilmem,div
 
 //@ func fdo.TO2Server.produceOwnerServiceInfo
 //@   params s ctx moduleName module
+//@   local complete = extract1:call:serviceinfo.OwnerModule.ProduceInfo#1
+//@   local err = call:fdo.TO2SessionState.SetDevmod#1 | call:serviceinfo.ModulePersister.PersistModule#1 | extract1:call:fdo.TO2SessionState.MTU#1 | extract1:call:serviceinfo.ModuleStateMachine.NextModule#1 | extract2:call:serviceinfo.OwnerModule.ProduceInfo#1
+//@   local mtu = extract0:call:fdo.TO2SessionState.MTU#1
+//@   local producer = call:serviceinfo.NewProducer#1
+//@   local serviceInfo = call:serviceinfo.Producer.ServiceInfo#1
+//@   local size = call:serviceinfo.ArraySizeCBOR#1
 //@   props C10(sweep)
 //@   sweep bounds,panic,make,nilmem,div
 
 //@ func fdo.TO2Server.to2Done2
 //@   params s ctx msg
+//@   local currentOV = extract0:call:fdo.VoucherPersistentState.Voucher#1
+//@   local done = addr:Alloc#1
+//@   local err = call:cbor.Decoder.Decode#1 | call:fdo.OwnerVoucherPersistentState.ReplaceVoucher#1 | extract1:call:fdo.TO2SessionState.GUID#1 | extract1:call:fdo.TO2SessionState.ProveDeviceNonce#1 | extract1:call:fdo.TO2SessionState.ReplacementGUID#1 | extract1:call:fdo.TO2SessionState.ReplacementHmac#1 | extract1:call:fdo.TO2SessionState.RvInfo#1 | extract1:call:fdo.TO2SessionState.SetupDeviceNonce#1 | extract1:call:fdo.VoucherPersistentState.Voucher#1 | extract2:call:fdo.TO2Server.ownerKey#1
+//@   local rsaBits = call:protocol.PublicKey.RsaBits#1
 //@   props C10(sweep)
 //@   sweep bounds,panic,make,nilmem,div
 
@@ -78,6 +97,7 @@ package fdo
 
 //@ func fdo.appStart
 //@   params ctx transport info
+//@   local err = call:cbor.Decoder.Decode#1 | call:cbor.Decoder.Decode#2 | extract2:call:fdo.Transport.Send#1
 //@   props C10(sweep)
 //@   sweep bounds,panic,make,nilmem,div
 
@@ -88,16 +108,24 @@ package fdo
 
 //@ func fdo.handleOwnerModuleMessage
 //@   params ctx mod moduleName messageName messageBody send
+//@   local err = call:serviceinfo.DeviceModule.Receive#1 | extract1:call:io.Copy#1
+//@   local n = extract0:call:io.Copy#1
 //@   props C10(sweep)
 //@   sweep bounds,panic,make,nilmem,div
 
 //@ func fdo.handleOwnerModuleMessages
 //@   params ctx prevModuleName modules ownerInfo send
+//@   local active = addr:FieldAddr#1 | extract1:call:fdo.deviceModuleMap.Lookup#1 | extract1:call:fdo.deviceModuleMap.Lookup#2
+//@   local messageBody = extract1:call:serviceinfo.UnchunkReader.NextServiceInfo#1
+//@   local messageName = extract1:call:strings.Cut#1
+//@   local mod = extract0:call:fdo.deviceModuleMap.Lookup#1 | extract0:call:fdo.deviceModuleMap.Lookup#2
+//@   local moduleName = extract0:call:strings.Cut#1
 //@   props C10(sweep)
 //@   sweep bounds,panic,make,nilmem,div
 
 //@ func fdo.hashAlgFor
 //@   params devicePubKey ownerPubKey
+//@   local err = extract1:call:fdo.hashSizeForPubKey#1 | extract1:call:fdo.hashSizeForPubKey#2
 //@   props C10(sweep)
 //@   sweep bounds,panic,make,nilmem,div
 
@@ -118,11 +146,15 @@ package fdo
 
 //@ func fdo.newSignedEntry
 //@   params owner usePSS payload
+//@   local err = call:cose.Sign1.Sign#1 | extract1:call:fdo.signOptsFor#1
 //@   props C10(sweep)
 //@   sweep bounds,panic,make,nilmem,div
 
 //@ func fdo.proveDevice
 //@   params ctx transport proveDeviceNonce ownerPublicKey sess c
+//@   local err = call:cbor.Decoder.Decode#1 | call:cbor.Decoder.Decode#2 | call:cose.Sign1.Sign#1 | extract1:call:crypto/rand.Read#1 | extract1:call:fdo.reuseCredentials#1 | extract1:call:fdo.signOptsFor#1 | extract1:call:kex.Session.Parameter#1 | extract2:call:fdo.Transport.Send#1
+//@   local setupDevice = addr:Alloc#16
+//@   local setupDeviceNonce = UnOp#42 | UnOp#52 | UnOp#56 | UnOp#9 | addr:Alloc#4
 //@   props C10(sweep)
 //@   sweep bounds,panic,make,nilmem,div
 
@@ -148,6 +180,8 @@ package fdo
 
 //@ func fdo.setHmac
 //@   params ctx transport hmac ovh
+//@   local msg = UnOp#4 | addr:Alloc#3
+//@   local ovhHash = extract0:call:fdo.hmacHash#1
 //@   props C10(sweep)
 //@   sweep bounds,panic,make,nilmem,div
 
